@@ -174,6 +174,26 @@ UNITS.update({
         "complete": "unbounded: every message and key; partial correctness of the retry loop",
         "timeout": 600,
     },
+    "U-KEYGEN": {
+        "backend": "verus",
+        "template": "contracts/keygen.vc",
+        "trusted": ["Verus 0.2026.09.13 / Z3; vstd",
+                    "Polynomial fft / ifft / hadamard_div contracts (U-NTT-POLY, U-BATCHINV), table_facts (U-TAB), existence of inverses (U-FELT-INV), Felt::new / Neg / is_zero (U-FELT)",
+                    "Polynomial::map is the element-wise map (its one-line definition in polynomial.rs is compared textually on every run)",
+                    "D4: gen_poly, gram_schmidt_norm_squared, ntru_solve_entrypoint and the `as i16` narrowing of F, G are outside the verified slice of ntru_gen (uncontracted external calls); the f64 comparison with 1.3689*q enters as an external predicate whose constant is pinned to 13689/10^4",
+                    "termination of ntru_gen's rejection loop is not proved"],
+        "assumption_lines": [r"external_body", r"exec_allows_no_decreases_clause"],
+        "dropped": ["D4: bindings computed in floating point / BigInt in ntru_gen", "D5: no decreases clause on ntru_gen's loop"],
+        "complete": "unbounded: every secret key object with invertible f; every execution of ntru_gen's loop",
+        "timeout": 900,
+    },
+    "U-FRAME": {
+        "backend": "frame",
+        "functions": ["falcon.rs: sign (signature), SecretKey / PublicKey / Signature (auto traits)"],
+        "trusted": ["rustc's type checker (auto traits Send / Sync, borrow of &SecretKey)",
+                    "the scan is textual: no unsafe, static mut, interior mutability, thread_local!, lazy_static!, Mutex, atomics or statics in non-test code"],
+        "complete": "compile-time obligations + whole-crate source scan",
+    },
     "U-APPROX": {
         "backend": "verus",
         "template": "contracts/approx.vc",
@@ -317,6 +337,36 @@ PROPS.update({
         "level_text": "Partial: proof-level for signature and public key, field-level for the secret key; see undecided clauses.",
         "level_note": "Assumed: BitVec/chunks model, Kani/CBMC, Verus/Z3. The secret-key clauses listed as undecided are not claimed.",
         "technique": "Kani full-domain contract harnesses + Verus contracts on extracted real functions",
+    },
+})
+
+PROPS.update({
+    "C04": {
+        "title": "Every generated key pair is a valid NTRU trapdoor with in-range tree leaves",
+        "level": "other",
+        "quick": ["U-KEYGEN", "U-NTT-POLY", "U-NTT-CORE", "U-BATCHINV", "U-TAB", "U-FELT"],
+        "thorough": ["U-FELT-INV"],
+        "undecided_clauses": ["f*G - g*F = q over Z[X]/(X^n+1): NTRUSolve (BigInt tower, floating-point Babai reduction) and the unchecked `as i16` narrowing are outside any contract here; no failing seed is known, so this is undecided, not a finding",
+                              "the leaf range [sigma_min, sigma_max] of the signing tree (floating-point LDL)",
+                              "the glue gen_b0 / from_b0 between ntru_gen and from_secret_key (b0 = [g, -f, G, -F]) is read, not verified"],
+        "assumptions": [],
+        "explanation": "Partial claim. Proved on extracted text (Verus): (1) the pair (f, g) that ntru_gen returns is the pair it tested, f is invertible modulo q (its NTT vanishes nowhere) and the Gram-Schmidt acceptance test it passed compares with the property's constant 1.3689*q; (2) PublicKey::from_secret_key returns h with h*f == g in Z_q[X]/(X^n+1) for every secret key whose f is invertible (via the NTT contracts, batch inversion and the theorems thm_fwd_is_ntt / thm_inv_fwd / thm_fwd_inv). Not decided: the NTRU equation and the tree leaves.",
+        "level_text": "Partial: the modular-arithmetic clauses (f invertible, h = g/f) are proved; the integer NTRU equation and the floating-point tree are not decided.",
+        "level_note": "ntru_gen is verified as a statement slice (D4); see undecided clauses.",
+        "technique": "Verus contracts on extracted real functions / statement slices, composed over the NTT contracts",
+    },
+    "C01": {
+        "title": "Every honestly produced signature verifies (both variants)",
+        "level": "other",
+        "quick": ["U-SIGN", "U-CODEC", "U-CODEC-K", "U-VERIFY", "U-H2P", "U-NTT-CORE", "U-NTT-POLY", "U-TAB", "U-FELT", "U-FRAME"],
+        "thorough": [],
+        "undecided_clauses": ["that the vector produced by the floating-point pipeline of sign (t = (c,0)B^-1, ffSampling, (t-z)B, float norm test, rounding) is a short point of the right coset, i.e. the norm hypothesis of thm_c01_accept: not expressible without real-arithmetic reasoning over a 512-point complex FFT",
+                              "thread interleavings: sign takes &SecretKey and the crate has no unsafe / static mut / interior mutability (scanned by the check), SecretKey: Send + Sync is a compile-time obligation of the replay crate; no contract states more"],
+        "assumptions": [],
+        "explanation": "Partial claim. Proved: (1) verifier side, theorem thm_c01_accept over the contracts of compress and verify: for every message, salt, public key h and in-range vector v, a signature whose body is compress(v) and whose (c - v*h centred, v) has squared norm <= floor(beta^2) is accepted, and (thm_c01_only) nothing else is; (2) sign's plumbing (U-SIGN): the body sign returns is the Algorithm-17 encoding of one vector into exactly 625 / 1239 bytes, with the salt that was hashed. Not decided: that the sampler's vector satisfies the norm hypothesis.",
+        "level_text": "Partial: acceptance is reduced to one hypothesis about the floating-point sampler's output, which this family cannot decide.",
+        "level_note": "Detects changes to verify, the codec, hashing, the salt / compress plumbing of sign and the bound constants; blind to changes inside the lattice sampler.",
+        "technique": "Verus: theorem over the postconditions of compress and verify + contract on a statement slice of sign",
     },
 })
 
